@@ -1097,6 +1097,7 @@ type attributeCacheKey struct {
 // attributeCacheEntry represents a cached attribute lookup result
 type attributeCacheEntry struct {
 	fieldIndex  int       // Index of the field (-1 if not a field)
+	fieldPath   []int     // Full index path of the field (more than one element for promoted fields)
 	isMethod    bool      // Whether this is a method
 	methodIndex int       // Index of the method (-1 if not a method)
 	ptrMethod   bool      // Whether the method is on the pointer type
@@ -1319,7 +1320,10 @@ func (ctx *RenderContext) getAttribute(obj interface{}, attr string) (interface{
 			// Look for a field
 			field, found := objType.FieldByName(attr)
 			if found {
-				entry.fieldIndex = field.Index[0] // Assuming single-level field access
+				entry.fieldIndex = field.Index[0]
+				// Keep the whole path: a field promoted from an embedded struct has a
+				// multi-element index and must not resolve to the embedded struct itself
+				entry.fieldPath = field.Index
 			}
 
 			// Look for a method on the value
@@ -1349,8 +1353,9 @@ func (ctx *RenderContext) getAttribute(obj interface{}, attr string) (interface{
 
 	// Try field access first
 	if entry.fieldIndex >= 0 {
-		field := objValue.Field(entry.fieldIndex)
-		if field.IsValid() && field.CanInterface() {
+		// FieldByIndexErr reports a nil embedded pointer on the path instead of panicking
+		field, err := objValue.FieldByIndexErr(entry.fieldPath)
+		if err == nil && field.IsValid() && field.CanInterface() {
 			return field.Interface(), nil
 		}
 	}
